@@ -584,9 +584,10 @@ package core
 //@   opt deterministic on
 
 //@ func core.Node.makePrenodesForBinding property C04
-//@   requires self != nil && bind != nil && self.top != nil
+//@   requires self != nil && self.top != nil
 //@   requires forall n core.Nodable :: fileRefs != nil && has(fileRefs, n) && fileRefs[n] != nil ==> alloc(fileRefs[n])
 //@   let R = fn(syntax.ResolvedBinding.FindRefs, bind, self.top.types).0
+//@   ensures @innerowned forall n core.Nodable :: result.1 != nil && has(result.1, n) && result.1[n] != nil ==> alloc(result.1[n])
 //@   ensures @registered forall j :: 0 <= j && j < len(R) && R[j] != nil && R[j].Exp != nil && fn(syntax.Type.IsFile, R[j].Type) != 0 ==> result.1 != nil && has(result.1, self.top.allNodes[R[j].Exp.Id]) && has(result.1[self.top.allNodes[R[j].Exp.Id]], R[j].Exp.OutputId)
 //@   loop 1 invariant 0 <= iter && iter <= len(R) && len(brefs) == len(R) && base(brefs) == base(R) && off(brefs) == off(R)
 //@   loop 1 invariant forall n core.Nodable :: fileRefs != nil && has(fileRefs, n) && fileRefs[n] != nil ==> alloc(fileRefs[n])
@@ -621,7 +622,7 @@ package core
 //@   trusted
 //@   pure
 
-//@ iface syntax.CallGraphNode.Disabled property C03
+//@ iface syntax.CallGraphNode.Disabled property C03 C02 C06
 //@   pure
 //@   opt deterministic on
 
@@ -630,3 +631,42 @@ package core
 //@   ensures @allconsulted !result.0 ==> ghost(dresolved)[0] == old(ghost(dresolved)[0]) + len(fn(syntax.CallGraphNode.Disabled, self.node.call))
 //@   loop 1 invariant ghost(dresolved)[0] == old(ghost(dresolved)[0])
 //@   loop 2 invariant 0 <= iter && iter <= len(fn(syntax.CallGraphNode.Disabled, self.node.call)) && ghost(dresolved)[0] == old(ghost(dresolved)[0]) + iter
+
+// ---------------------------------------------------------------- C02 / C06 every referenced call is a prerequisite
+// Node.makePrenodes: every call referred to by a disabling expression of this call is
+// registered among the node's prenodes (under its fully qualified name), whatever else
+// the call is bound to.
+//@ iface syntax.Exp.FindRefs property C02 C06
+//@   pure
+//@   opt deterministic on
+
+//@ iface core.Nodable.GetFQName property C02 C06
+//@   pure
+//@   opt deterministic on
+
+//@ func core.Node.setPostNode property C02 C06
+//@   trusted
+//@   modifies self.postnodes, mapof(self.postnodes)
+//@   ensures self.postnodes == old(self.postnodes) || fresh(self.postnodes)
+
+//@ func core.Node.attachToFileParents property C02 C06
+//@   trusted
+//@   pure
+
+//@ func core.Node.makePrenodes property C02 C06
+//@   requires self != nil && self.top != nil
+//@   requires @heapwf forall x *core.Node :: x.postnodes == nil || alloc(x.postnodes)
+//@   let D = fn(syntax.CallGraphNode.Disabled, self.call)
+//@   ensures @disabledrefs forall i, j :: 0 <= i && i < len(D) && 0 <= j && j < len(fn(syntax.Exp.FindRefs, D[i])) && fn(syntax.Exp.FindRefs, D[i])[j] != nil ==> self.prenodes != nil && has(self.prenodes, fn(core.Nodable.GetFQName, self.top.allNodes[fn(syntax.Exp.FindRefs, D[i])[j].Id]))
+//@   loop 1 invariant forall n core.Nodable :: fileRefs != nil && has(fileRefs, n) && fileRefs[n] != nil ==> alloc(fileRefs[n])
+//@   loop 1 invariant forall n core.Nodable :: fileRefs != nil && has(fileRefs, n) && fileRefs[n] != nil ==> alloc(fileRefs[n])
+//@   loop 1 invariant forall x *core.Node :: x.postnodes == nil || old(alloc(x.postnodes))
+//@   loop 2 invariant 0 <= iter && iter <= len(D)
+//@   loop 2 invariant forall x *core.Node :: x.postnodes == nil || old(alloc(x.postnodes))
+//@   loop 3 invariant forall x *core.Node :: x.postnodes == nil || old(alloc(x.postnodes))
+//@   loop 2 invariant forall i, j :: 0 <= i && i < iter && 0 <= j && j < len(fn(syntax.Exp.FindRefs, D[i])) && fn(syntax.Exp.FindRefs, D[i])[j] != nil ==> refs != nil && has(refs, self.top.allNodes[fn(syntax.Exp.FindRefs, D[i])[j].Id])
+//@   loop 3 invariant refs != nil && forall n core.Nodable :: atloop(has(refs, n)) ==> has(refs, n)
+//@   loop 3 invariant forall j :: 0 <= j && j < iter && brefs[j] != nil ==> has(refs, self.top.allNodes[brefs[j].Id])
+//@   loop 4 invariant self.prenodes != nil && forall n core.Nodable :: has(refs, n) == atloop(has(refs, n))
+//@   loop 4 invariant fresh(self.prenodes) && alloc(self.prenodes) && forall x *core.Node :: x.postnodes != self.prenodes
+//@   loop 4 invariant forall n core.Nodable :: visited(n) ==> has(self.prenodes, fn(core.Nodable.GetFQName, n))
